@@ -48,7 +48,7 @@ ASSUMPTIONS = [
     "MachineHasDisconnectedSubregion, MinimisationFailedError) end a case as "
     "rejected; on the easy class a mapping must be produced",
 ]
-FLOORS = {"mapping_simulated": 150, "packet_injected": 800,
+FLOORS = {"probed_machine": 100, "mapping_simulated": 150, "packet_injected": 800,
           "delivery_checked": 1500, "default_routed_hop": 100,
           "minimised_entry_hit": 100, "easy_must_map": 40}
 SHARDS = {"quick": 16, "thorough": 64}
@@ -59,7 +59,7 @@ RADII = [0, 1, 3, 20]
 MINIMISERS = ["none", "rde", "oc", "chain"]
 PATHS = ["chain", "chain", "wrapper", "deprecated"]
 CLASSES = ["easy", "faulty", "constrained", "devices", "tiny", "keys",
-           "faulty_fanout"]
+           "faulty_fanout", "probed"]
 
 
 def plan(tier):
@@ -71,6 +71,9 @@ def gen(cls, idx, rng, tier):
     side = 8 if tier == "quick" else 12
     if cls == "tiny":
         m = par.gen_faults(rng, "tiny")
+    elif cls == "probed":
+        m = par.gen_faults(rng, rng.choice(["none", "sparse", "deadchips",
+                                            "mesh", "oneway"]), 6)
     elif cls == "faulty_fanout":
         m = par.gen_faults(rng, "dense", 12)
     elif cls == "faulty":
@@ -161,6 +164,8 @@ def gen(cls, idx, rng, tier):
             keys.append(None)       # allocated with a BitField at run time
     cfg = idx
     path = PATHS[cfg % 4]
+    if cls == "probed":
+        path = "probed"
     if cls == "faulty_fanout":
         cfg = 2 * rng.choice([1, 2, 3, 4, 5]) + 4 * rng.randrange(100)
     return dict(machine=m, busy=sorted(busy.items()), vertices=vertices,
@@ -258,6 +263,32 @@ def system_info_for(case, mcm, Links):
     return si
 
 
+def probed_machine(case):
+    """the case's machine as a simulated SpiNNaker machine behind a real
+    MachineController"""
+    from ..sim import machine as M
+    m = case["machine"]
+    busy = {tuple(xy): cs for xy, cs in case["busy"]}
+    dl = {tuple(l) for l in m["dead_links"]}
+    sim = M.Machine(m["w"], m["h"], dead=[tuple(c) for c in m["dead_chips"]],
+                    root=par.live_chips(m)[0])
+    for xy, chip in sim.chips.items():
+        r = par.chip_res(m, xy)
+        chip.ncores = r["Cores"]
+        chip.core_state = [M.RUN] + [M.IDLE] * (r["Cores"] - 1)
+        chip.core_app = [0] * r["Cores"]
+        chip.core_image = [None] * r["Cores"]
+        for c in busy.get(xy, []):
+            chip.core_state[c] = M.RUN
+            chip.core_app[c] = 17
+        chip.links = {l for l in range(6) if (xy[0], xy[1], l) not in dl}
+        chip.sdram_free, chip.sram_free = r["SDRAM"], r["SRAM"]
+        for i in range(1, 1024 - case["rtr_free"]):
+            chip.router[i] = (0, 0xffffffff, 0xffffffff, 9, 0)
+    sim.finalise()
+    return M.Rig(sim)
+
+
 def run(case, ctx):
     imp = importlib.import_module
     rp = imp("rig.place_and_route")
@@ -316,9 +347,15 @@ def run(case, ctx):
                    for xy in live) and case["target"] in (None, 1023) and
                case["rtr_free"] == 1023 and
                not any(c[0] in ("loc", "same") for c in cons_desc))
+    rig_sim = None
     try:
-        if case["path"] == "wrapper":
-            si = system_info_for(case, mcm, Links)
+        if case["path"] in ("wrapper", "probed"):
+            if case["path"] == "probed":
+                rig_sim = probed_machine(case)
+                si = rig_sim.mc.get_system_info()
+                ctx.hit("probed_machine")
+            else:
+                si = system_info_for(case, mcm, Links)
             constraints = par.build_constraints(cons_desc)
             placements, allocations, app_map, tables = \
                 wr.place_and_route_wrapper(
@@ -374,9 +411,47 @@ def run(case, ctx):
     except Exception as e:
         raise Violation("unexpected-exception", "%s: %s: %s" %
                         (what, type(e).__name__, e))
+    if rig_sim is not None:
+        # install the tables through the real controller and simulate on what
+        # the routers of the machine model actually hold
+        mc = rig_sim.mc
+        try:
+            mc.load_routing_tables(tables, app_id=66)
+        except Exception as e:
+            raise Violation("tables-not-installable", "%s: %s: %s" %
+                            (what, type(e).__name__, e))
+        check(not rig_sim.machine.protocol_errors, "malformed-command",
+              "; ".join(rig_sim.machine.protocol_errors[:3]))
+        Installed = collections.namedtuple("Installed", "route key mask")
+        installed = {}
+        for xy, chip in rig_sim.machine.chips.items():
+            ents = [Installed({b for b in range(24) if e[0] >> b & 1}, e[1],
+                              e[2]) for e in chip.router if e is not None]
+            if ents:
+                installed[xy] = ents
+        for xy, tb in tables.items():
+            mine = [e for e in rig_sim.machine.chips[tuple(xy)].router
+                    if e is not None and e[3] == 66]
+            check(len(mine) == len(tb), "installed-table-length",
+                  "chip %r: %d entries installed for a %d-entry table" %
+                  (xy, len(mine), len(tb)))
+        tables = installed
     if easy_ok:
         ctx.hit("easy_must_map")
     ctx.hit("mapping_simulated")
+    if case["path"] in ("wrapper", "probed"):
+        # nothing may be placed on a dead chip, the monitor or a busy core
+        for v in vr:
+            xy = tuple(placements[v])
+            check(xy in set(live), "placed-on-dead-chip", "%r on %r" % (v, xy))
+            sl = allocations[v].get(rp.Cores, slice(0, 0))
+            used = set(range(sl.start, sl.stop))
+            clash = used & (set(busy.get(xy, [])) | ({0} if
+                            case["path"] == "probed" else set()))
+            check(not clash and sl.stop <= par.chip_res(m, xy)["Cores"],
+                  "allocated-busy-core",
+                  "%s: vertex %r given cores %r of chip %r; busy cores %r" %
+                  (what, v, sorted(used), xy, busy.get(xy, [])))
     if case["path"] != "chain":
         want_map = collections.defaultdict(set)
         for v in vr:
